@@ -20,11 +20,11 @@ RULE = ("exhaustive enumeration: all 2^n occupation vectors for n in {2,4,6,8} (
 ASSUMPTIONS = ["the operator encoder (fermion_to_qubit_mapping) is taken as given - its faithfulness is C03's subject; C05 is the agreement "
                "between state encoder and operator encoder", "basis-state expectation by an own Z-string evaluator"]
 ANCHORS = [
-    ("tangelo/toolboxes/qubit_mappings/statevector_mapping.py", "33-66", "alpha/beta filling from electron number and spin"),
-    ("tangelo/toolboxes/qubit_mappings/statevector_mapping.py", "69-125", "BK encoder matrix, scBK construction and qubit deletion"),
-    ("tangelo/toolboxes/qubit_mappings/jkmn.py", "195-219", "JKMN X/Y support"),
-    ("tangelo/toolboxes/qubit_mappings/statevector_mapping.py", "128-153", "ordering conversion and dispatch"),
-    ("tangelo/toolboxes/qubit_mappings/statevector_mapping.py", "156-175", "vector -> X gates"),
+    ("tangelo/toolboxes/qubit_mappings/statevector_mapping.py", "get_vector", "alpha/beta filling from electron number and spin"),
+    ("tangelo/toolboxes/qubit_mappings/statevector_mapping.py", "do_bk_transform,do_scbk_transform,do_jkmn_transform", "BK encoder matrix, scBK construction and qubit deletion"),
+    ("tangelo/toolboxes/qubit_mappings/jkmn.py", "jkmn_prep_vector", "JKMN X/Y support"),
+    ("tangelo/toolboxes/qubit_mappings/statevector_mapping.py", "get_mapped_vector", "ordering conversion and dispatch"),
+    ("tangelo/toolboxes/qubit_mappings/statevector_mapping.py", "vector_to_circuit", "vector -> X gates"),
 ]
 REQUIRED = {"occupation_of_mapped_vector": 5000, "reference_circuit_occupation": 1000, "x_gates_only": 500}
 BUDGET = {"quick": 240, "thorough": 2400}
